@@ -8,7 +8,7 @@ CONSTANTS
   TicksPerSec = 16
   MaxChain = 16
   BackoffTable <- MCBackoff
-  Requests <- MCRequestsCq
+  Requests <- MCRequestsC
   IdleAdvances = {0, 16, 96}
   Outcomes <- MCOutcomesB
   Advances <- MCAdvancesB
